@@ -379,7 +379,7 @@ _MORE_LEVEL = {
     "C19": "With no writers, readers also read everything striped, each channel as far as it has samples (partial last frame included).",
     "C03": "Marathon cases: 300..70000 appends of short sources onto one header (shape checked at every step, contents at the end). A quarter of the destinations come out of a pool allocator.",
     "C04": "The sweep fills buffers of 70000..200000 samples one sample at a time, and goes on beyond.",
-    "C05": "Same-type conversions are also run in place (a window onto itself, through one and through two headers): nothing may change. NaN inputs include quiet and signalling patterns with the payload in the high or the low bits.",
+    "C05": "Same-type conversions are also run in place (a window onto itself, through one and through two headers): nothing may change. NaN inputs include quiet and signalling patterns with the payload in the high or the low bits. The two windows of one parent are also reached through two or three Slice calls each, with own or shared outer windows that start at the same frame (Nest 1-4).",
     "C10": "Pooled buffers of 258..6000 samples with sparse single-sample writes far apart through a full window (gaps of untouched zeros).",
     "C12": "One Append between two windows of a parent of 66000..400000 samples (in place with the source before, overlapping and behind the region written; growing) is compared with copy/append on plain slices (Big cases).",
     "C15": "After every rejected conversion, Append and striped call the same operands are used again in calls with matching shapes, which must succeed with the expected effect.",
